@@ -26,6 +26,9 @@ def doc_from_json(data):
     doc = pm_corr.doc_from_json(data)
     if 'pageW' in doc:
         doc['pageW'] = Fraction(doc['pageW'])
+    for box in pm_col.walk(doc['root']):
+        if 'gap' in box:
+            box['gap'] = Fraction(box['gap'])
     return doc
 
 
@@ -214,21 +217,18 @@ REGRESSIONS = {
     'colspan_find_earlier_attribute_error': lambda doc, out: out if out.startswith('err:') else None,
     'columns_negative_margin_bottom': lambda doc, out: geometry_violation(doc, out),     # corpus/C03
     'columns_margin_top_ignored': lambda doc, out: margin_top_ignored(out),              # corpus/C05
+    # a spanning block with block children cut by a page (d7e3d63): content lost / IndexError in the inline layout
+    'colspan_block_resume_lost': lambda doc, out: (
+        out if out.startswith('err:') else conservation_violation(doc, out, strict=True)),
+    'colspan_block_resume_crash': lambda doc, out: (
+        out if out.startswith('err:') else conservation_violation(doc, out, strict=True)),
 }
 
-# findings that are still open: corpus file -> judge (text while the real code shows the defect). These documents
-# are outside the generator grammar (a spanning block with block children): the model does not follow the code there.
-OPEN = {
-    'colspan_block_resume_lost': lambda doc, out: (
-        None if out.startswith('err:') else conservation_violation(doc, out, strict=True)),
-    'colspan_block_resume_crash': lambda doc, out: out if out.startswith('err:') else None,
-}
+# no finding of this grammar is open; the dictionary stays as the place for the next one (name -> judge)
+OPEN = {}
 WITNESSES = {**REGRESSIONS, **OPEN}          # every corpus document that `replay_witness` knows
 # finding id (known_findings.txt) -> corpus document, read by harness/pm_stage2.finding_replays()
-FINDING_WITNESS = {
-    'column-span-block-resume-mislevelled': 'colspan_block_resume_lost',
-    'column-span-block-resume-crash': 'colspan_block_resume_crash',
-}
+FINDING_WITNESS = {}
 
 
 def margin_top_ignored(out):
